@@ -323,6 +323,7 @@ func checkC03(c *Ctx) {
 	c.checkBucketStorage("O5 storage-fields", fVal, fDur)
 	c.checkPairAccessors("O5 pair-accessors")
 	c.checkBucketsUsed("O7 buckets-used")
+	c.checkCachedBucketPerBucket("O8 cached-bucket-per-bucket")
 	// O6: a histogram uses the bounds it was created with (shared with C20 O4)
 	c.checkBucketCacheGet("O6 own-buckets")
 	c.checkBucketsEqual("O6 own-buckets-equal")
@@ -1070,4 +1071,119 @@ func (c *Ctx) checkBucketsUsed(rule string) {
 		c.check(reach && !other && len(allowed) >= 2, rule, key, d.Pos(), "configured default buckets are kept; the package default replaces them exactly when they are nil or empty",
 			"the package default replaces the configured default buckets under a condition other than `nil or Len() < 1`: a configured specification (e.g. a single bucket) is silently discarded, or an unset one is not replaced", c.describe(d))
 	}
+}
+
+// checkCachedBucketPerBucket (O8): with a cached reporter every bucket of a histogram gets its cached
+// bucket handle: in the constructor's per-bucket loop the only ways around the store to
+// samples[i].cachedBucket are "no cached histogram" and "neither histogram kind". The cached report pass
+// calls the handle of every bucket with a non-zero count unconditionally, so a bucket left without a
+// handle (because of its bounds, its index, ...) crashes the pass as soon as a sample lands in it.
+func (c *Ctx) checkCachedBucketPerBucket(rule string) {
+	fn := c.fn("", "", "newHistogram")
+	fCB := c.field("", "sampleCounter", "cachedBucket")
+	if fn == nil || fCB == nil {
+		c.missing(rule, "tally.newHistogram / sampleCounter.cachedBucket")
+		return
+	}
+	key := c.fnKey(fn)
+	c.sawFunc(key)
+	var cachedParam, htypeParam ssa.Value
+	for _, p := range fn.Params {
+		if n, ok := p.Type().(*types.Named); ok {
+			switch n.Obj().Name() {
+			case "CachedHistogram":
+				cachedParam = p
+			case "histogramType":
+				htypeParam = p
+			}
+		}
+	}
+	var stores []*ssa.Store
+	instrsOf(fn, func(in ssa.Instruction) {
+		if st, ok := in.(*ssa.Store); ok {
+			if f, _ := addrField(st.Addr); f == fCB {
+				stores = append(stores, st)
+			}
+		}
+	})
+	if cachedParam == nil || len(stores) == 0 {
+		c.bad(rule, key, fn.Pos(), "the histogram constructor does not store a cached bucket handle per bucket")
+		return
+	}
+	var lp *loopInfo
+	for _, l := range loopsOf(fn) {
+		if l.Blocks[stores[0].Block()] {
+			lp = l
+		}
+	}
+	if lp == nil {
+		c.bad(rule, key, stores[0].Pos(), "cached bucket handles are not allocated in a per-bucket loop")
+		return
+	}
+	isHtypeTest := func(b *ssa.BasicBlock) bool {
+		iff, ok := condOf(b)
+		if !ok {
+			return false
+		}
+		op, x, y, isCmp := cmpOf(iff.Cond)
+		if !isCmp || (op != token.EQL && op != token.NEQ) {
+			return false
+		}
+		if _, isK := constInt(x); isK {
+			x, y = y, x
+		}
+		_, isK := constInt(y)
+		return isK && htypeParam != nil && canon(stripConv(x)) == htypeParam
+	}
+	skip := map[*ssa.BasicBlock]int{}
+	for b := range lp.Blocks {
+		iff, ok := condOf(b)
+		if !ok {
+			continue
+		}
+		if op, x, y, isCmp := cmpOf(iff.Cond); isCmp && (op == token.EQL || op == token.NEQ) {
+			if isNilConst(x) {
+				x, y = y, x
+			}
+			if isNilConst(y) && canon(stripConv(x)) == cachedParam {
+				skip[b] = b2i(op == token.NEQ) // the "== nil" outcome
+				continue
+			}
+		}
+		if isHtypeTest(b) {
+			op, _, _, _ := cmpOf(iff.Cond)
+			miss := b2i(op == token.EQL) // the "is not this kind" outcome
+			if !isHtypeTest(b.Succs[miss]) {
+				skip[b] = miss
+			}
+		}
+	}
+	isStore := func(in ssa.Instruction) bool {
+		st, ok := in.(*ssa.Store)
+		if !ok {
+			return false
+		}
+		f, _ := addrField(st.Addr)
+		return f == fCB
+	}
+	latch := map[*ssa.BasicBlock]bool{}
+	for _, l := range lp.Latch {
+		latch[l] = true
+	}
+	// from the first instruction of the loop body to the end of an iteration without a store
+	var esc ssa.Instruction
+	for _, s := range lp.Header.Succs {
+		if !lp.Blocks[s] || len(s.Instrs) == 0 {
+			continue
+		}
+		_ = latch
+		e := reachAvoidingF(s.Instrs[0], true, skip, func(i ssa.Instruction) bool {
+			return i == lp.Header.Instrs[0] // back at the header: the iteration is over
+		}, isStore)
+		if e != nil {
+			esc = e
+		}
+	}
+	c.check(esc == nil, rule, key, stores[0].Pos(), "with a cached histogram every bucket of either kind gets its cached bucket handle",
+		"an iteration of the per-bucket loop can finish without storing a cached bucket handle although a cached histogram is present (a condition on the bucket's bounds or index): the cached report pass calls that nil handle as soon as the bucket has a sample (nil pointer panic), e.g. for -Inf / the minimum bound")
 }
